@@ -524,14 +524,20 @@ func VerifyObjectCopyAccess(ctx context.Context, be backend.Backend, copySource 
 		return err
 	}
 	// Verify source bucket access
-	srcBucket, srcObject, found := strings.Cut(copySource, "/")
-	if !found {
+	// the source is taken apart exactly as the backend will do it: the
+	// decision is made for the key the copy reads, not for the key
+	// followed by its "?versionId=..." suffix, and reading a named version
+	// is an action of its own
+	if copySource == "" {
 		return s3err.GetAPIError(s3err.ErrInvalidCopySource)
 	}
-	// the source bucket is looked up below the gateway root: it has to be
-	// a single path element
-	if !backend.IsOpaqueIDValid(srcBucket) {
-		return s3err.GetAPIError(s3err.ErrInvalidCopySource)
+	srcBucket, srcObject, srcVersionId, err := backend.ParseCopySource(copySource)
+	if err != nil {
+		return err
+	}
+	srcAction := GetObjectAction
+	if srcVersionId != "" {
+		srcAction = GetObjectVersionAction
 	}
 
 	// Get source bucket ACL
@@ -552,7 +558,7 @@ func VerifyObjectCopyAccess(ctx context.Context, be backend.Backend, copySource 
 		Acc:           opts.Acc,
 		Bucket:        srcBucket,
 		Object:        srcObject,
-		Action:        GetObjectAction,
+		Action:        srcAction,
 	}); err != nil {
 		return err
 	}
